@@ -76,9 +76,34 @@ pub fn call<T>(f: impl FnOnce() -> Result<T, String>) -> Call<T> {
     }
 }
 
+/// Variable-free decoy formulae that are valid on every network; the batch entry points are
+/// called with the formula under test surrounded by them (position chosen from the text), so
+/// that "results in input order" is observed for batches of mixed heights as well.
+const DECOY_SMALL: &str = "True";
+const DECOY_TALL: &str = "(AG (EF (AX (EX (~(False))))))";
+
+fn batch_around(text: &str) -> (Vec<&str>, usize) {
+    let mut h: u64 = 0xcbf29ce484222325;
+    for b in text.bytes() {
+        h = (h ^ b as u64).wrapping_mul(0x100000001b3);
+    }
+    match (h >> 7) % 4 {
+        0 => (vec![text], 0),
+        1 => (vec![text, DECOY_SMALL], 0),
+        2 => (vec![DECOY_TALL, text], 1),
+        _ => (vec![DECOY_TALL, text, DECOY_SMALL], 1),
+    }
+}
+
 /// Evaluate one formula text through the given entry point.
 pub fn run_ep(ep: Ep, text: &str, sys: &Sys, ctx: &LabelToSetMap) -> Call<GraphColoredVertices> {
     let g = &sys.graph;
+    let pick = |mut v: Vec<GraphColoredVertices>, pos: usize, n: usize| -> Result<GraphColoredVertices, String> {
+        if v.len() != n {
+            return Err(format!("batch entry point returned {} results for {} formulae", v.len(), n));
+        }
+        Ok(v.swap_remove(pos))
+    };
     call(|| match ep {
         Ep::Formula => mc::model_check_formula(text, g),
         Ep::FormulaDirty => mc::model_check_formula_dirty(text, g),
@@ -90,12 +115,28 @@ pub fn run_ep(ep: Ep, text: &str, sys: &Sys, ctx: &LabelToSetMap) -> Call<GraphC
             let tree = parse_and_minimize_hctl_formula(g.symbolic_context(), text)?;
             mc::model_check_tree_dirty(tree, g)
         }
-        Ep::Multiple => mc::model_check_multiple_formulae(vec![text], g).map(|mut v| v.remove(0)),
-        Ep::MultipleDirty => mc::model_check_multiple_formulae_dirty(vec![text], g).map(|mut v| v.remove(0)),
+        Ep::Multiple => {
+            let (batch, pos) = batch_around(text);
+            let n = batch.len();
+            pick(mc::model_check_multiple_formulae(batch, g)?, pos, n)
+        }
+        Ep::MultipleDirty => {
+            let (batch, pos) = batch_around(text);
+            let n = batch.len();
+            pick(mc::model_check_multiple_formulae_dirty(batch, g)?, pos, n)
+        }
         Ep::Extended => mc::model_check_extended_formula(text, g, ctx),
         Ep::ExtendedDirty => mc::model_check_extended_formula_dirty(text, g, ctx),
-        Ep::MultipleExtended => mc::model_check_multiple_extended_formulae(vec![text], g, ctx).map(|mut v| v.remove(0)),
-        Ep::MultipleExtendedDirty => mc::model_check_multiple_extended_formulae_dirty(vec![text], g, ctx).map(|mut v| v.remove(0)),
+        Ep::MultipleExtended => {
+            let (batch, pos) = batch_around(text);
+            let n = batch.len();
+            pick(mc::model_check_multiple_extended_formulae(batch, g, ctx)?, pos, n)
+        }
+        Ep::MultipleExtendedDirty => {
+            let (batch, pos) = batch_around(text);
+            let n = batch.len();
+            pick(mc::model_check_multiple_extended_formulae_dirty(batch, g, ctx)?, pos, n)
+        }
     })
 }
 
